@@ -16,11 +16,12 @@ RULES = {
     'R4': 'skiplist: forward arrays are never shared between nodes and always freed with their node; an entry removed while referenced is marked before its list reference is dropped; the iterator follows forward pointers only from unmarked nodes and re-finds its place from a marked one by key, strictly after it',
     'R8': 'a removed entry that is still allocated for parked iterators is invisible: where rm leaves the node in the search structure (hashtable, trie) it stores a removal marker first, and its own match, get, put and the iterator\'s choice of the next node all test that marker',
     'R9': 'an entry never moves to another node: no trie node\'s reference count, key or value is copied from another node (iterators hold node pointers)',
+    'R10': 'exhaustion is a state of its own: the path of iter_next that ends the iteration (NULL after dropping the parked node) leaves at least one iterator field with a value iter_create does not give it, so that the next call does not start over',
     'R5': 'qb_map_foreach frees its iterator on every path; iter_create starts unparked or referenced',
     'R6': 'iter_create stores no unreferenced node pointer in the iterator: every node-pointer field is NULL, the map header (never freed), or referenced before the function returns',
     'R7': 'a node that iterators may be parked on stays linked while referenced: where the advance follows the parked node\'s own links (hashtable), the node is unlinked only at its last dereference (in the destroy function reached with refcount 0) or at map teardown',
 }
-FLOORS = {'R1': 6, 'R2': 3, 'R3': 2, 'R4': 6, 'R5': 2, 'R6': 4, 'R7': 2, 'R8': 9, 'R9': 1}
+FLOORS = {'R1': 6, 'R2': 3, 'R3': 2, 'R4': 6, 'R5': 2, 'R6': 4, 'R7': 2, 'R8': 9, 'R9': 1, 'R10': 3}
 
 IT = {
     'hashtable': dict(next='hashtable_iter_next', free='hashtable_iter_free', deref='hashtable_node_deref', node='hash_node',
@@ -52,6 +53,7 @@ def run(ctx):
     r7(ctx)
     r8(ctx)
     r9(ctx)
+    r10(ctx)
 
 
 def r1(ctx, name, m):
@@ -497,3 +499,52 @@ def r9(ctx):
               '%d stores to a trie node\'s refcount/key/value, none copies them from another node' % n,
               'an entry (and its reference count, which includes the iterators\' references) is moved to another node: iterators positioned on it are left '
               'pointing at a node that is no longer that entry and later drop their reference on whatever is stored there')
+
+
+def _valkey(e):
+    r = unwrap(e)
+    c = cval(r)
+    return ('c', c) if c is not None else ('e', last_field(r) or estr(r))
+
+
+def r10(ctx):
+    prog = ctx.prog
+    for name, m in IT.items():
+        irec = m['cur'][0]
+        fc = prog.fn(CREATE[name])
+        created = {}
+        for st in fc.events('STORE'):
+            lf = last_field(st.lhs)
+            if lf is not None and lf[0] == irec and st.d['op'] == '=':
+                created[lf[1]] = _valkey(st.rhs)
+        if not created:
+            raise AnalysisBroken('%s: %s stores no %s field' % (name, fc.name, irec))
+        f = prog.fn(m['next'])
+        flags = {estr(ev.lhs) for ev in f.events('STORE') if unwrap(ev.lhs).get('k') == 'var' and cval(unwrap(ev.rhs)) in (0, 1) and ev.d['op'] == '='}
+        flags |= {ev.d['var'] for ev in f.events('DECL') if 'init' in ev.d and cval(unwrap(ev.d['init'])) in (0, 1)}
+        keys = set()
+
+        def effect(ev, env):
+            if ev.kind == 'CALL' and ev.callee == m['deref']:
+                return {'#deref': 1}
+            if ev.kind == 'STORE':
+                lf = last_field(ev.lhs)
+                if lf is not None and lf[0] == irec:
+                    k = '#st:' + lf[1]
+                    keys.add(k)
+                    return {k: repr(_valkey(ev.rhs)) if ev.d['op'] == '=' else 'modified'}
+            return None
+        trk = set(flags) | {'#deref'} | {'#st:' + fl['n'] for fl in prog.record(irec)['fields']}
+        visits, _t = abstract_run(f, {'#deref': 0}, tracked=trk, effect=effect)
+        ends = [(ev, env) for (ev, env) in visits if ev.kind == 'RETURN' and ev.e is not None and cval(unwrap(ev.e)) == 0 and env.get('#deref') == 1]
+        if not ends:
+            raise AnalysisBroken('%s: %s has no exhaustion path' % (name, f.name))
+        bad = []
+        for ev, env in ends:
+            stored = {k[4:]: v for k, v in env.items() if k.startswith('#st:')}
+            if not any(fld not in created or v != repr(created[fld]) for fld, v in stored.items()):
+                bad.append((ev, stored))
+        ctx.check('R10', '%s:exhaustion-is-not-the-created-state' % name, not bad, bad[0][0] if bad else ends[0][0],
+                  'the ending path of %s leaves the iterator in a state %s does not produce' % (f.name, fc.name),
+                  'the ending path of %s writes only what %s writes (%s): an iterator whose last key sat at the starting position is back where it began and the next call starts the iteration over instead of returning NULL again'
+                  % (f.name, fc.name, ', '.join('%s=%s' % kv for kv in sorted((bad[0][1] if bad else {}).items())) or 'nothing'))
